@@ -239,6 +239,18 @@ def run(ctx, rep, model=True):
                  finish=[None, "reversed", "rot1"][(i // 2) % 3], cli=(i % 4 == 1))
         if len(rep.violations) >= 10:
             return
+    rep.count("state-FAB-larger-than-4-MiB")
+    run_case(ctx, rep, big_box_spec(ctx.rng), True, False, True, "list", False)
+
+
+def big_box_spec(rng):
+    """one level, one box of 40 x 40 x 32 cells with three species (ten state components: a state FAB of more than 4 MiB with
+    its ghost cells)"""
+    levels = [[[[0, 0, 0], [39, 39, 31]]]]
+    return {"nspec": 3, "ng_state": 1, "geo_lo": [0.0, -1.0, 0.5], "dx0": [0.125, 0.25, 0.125], "grid0": [40, 40, 32], "block": 8,
+            "levels": levels, "time": 0.0123, "step": 5,
+            "layouts": {sub: plotgen.random_layout(rng, levels, "mono") for sub in chkgen.SUBS}, "seed": rng.randrange(1 << 30),
+            "pressure": 101325.0}
 
 
 def replay(ctx, rep, obj, model=True):
